@@ -711,7 +711,7 @@ class BaseDiscretizer(BaseEstimator, TransformerMixin):
             # initiating feature summary (no value/label)
             feature_summary = {"feature": feature, "dtype": self.input_dtypes[feature]}
             # if there are nans -> if already added it will be dropped afterwards (unique content)
-            if self.str_nan in raw_labels_per_values[feature]:
+            if feature in requested_features and self.str_nan in raw_labels_per_values[feature]:
                 nan_group = self.values_orders[feature].get_group(self.str_nan)
                 feature_summary.update(
                     {"label": self.labels_per_values[feature][nan_group], "content": self.str_nan}
